@@ -319,6 +319,11 @@ def wrong_type_case():
         r = eq.request(2, 15, [{"ECID": 10, "ECV": U4(61)}, {"ECID": 30, "ECV": I4(-9)}])
         if r is None or int(r.get()) != 0 or values() is None or values()[0] != 61 or values()[2] != -9:
             problems.append(f"a well-typed S2F15 afterwards: EAC {None if r is None else r.get()!r}, constants {values()}")
+        # a value in another format that the constant's type CAN hold is applied as a value of that type (the text "7" for I4 30, U1 9 for U4 10)
+        r = eq.request(2, 15, [{"ECID": 30, "ECV": String("7")}, {"ECID": 10, "ECV": U1(9)}])
+        held = [eq.rig.handler.equipment_constants[k].value for k in (30, 10)]
+        if r is None or int(r.get()) != 0 or held != [7, 9] or any(type(x) is not int for x in held) or values() is None or (values()[2], values()[0]) != (7, 9):
+            problems.append(f"S2F15 [(30, 'String', '7'), (10, 'U1', 9)]: EAC {None if r is None else r.get()!r}, the constants hold {held!r}, S2F13 reports {values()}")
     finally:
         eq.rig.stop()
     return problems
